@@ -130,3 +130,32 @@ Example C07_nonvacuous :
   extrap_entry [1; 2; 4; 8] (map (peval [5; -1; 3; 2]) [1; 2; 4; 8]) = Some 5.
 Proof. apply (extrap_exact [5; -1; 3; 2] [1; 2; 4; 8]); [reflexivity | cbn; lia | ].
   repeat constructor; cbn [In]; intuition lra. Qed.
+
+(** Edge values of the fallback threshold.  [far fm ex best] is the decision "the extrapolation [ex] lies MORE than [fm]
+    decades from the finest-grid value [best]" for EVERY threshold [fm] (a number of the field, zero and tiny values
+    included; strict comparison: a distance of exactly [fm] decades stays).  Threshold 0: every entry that differs at all
+    from the finest-grid value (positive ratio) falls back, so the result is the finest-grid value.  A zero ratio is
+    infinitely far (log10 0 = -inf), a negative ratio is not far (log10 of a negative number is nan). *)
+Theorem C07_fallback_decision_is_strict_decade_distance : forall fm ex best : R, 0 < ex / best ->
+  (far fm ex best = true <-> fm < Rabs (ln (ex / best) / ln 10)).
+Proof. exact far_spec. Qed.
+Print Assumptions C07_fallback_decision_is_strict_decade_distance.
+
+Theorem C07_zero_threshold_falls_back_whenever_different : forall ex best : R, 0 < ex / best ->
+  (far 0 ex best = true <-> ex <> best).
+Proof. exact far_zero_threshold. Qed.
+Print Assumptions C07_zero_threshold_falls_back_whenever_different.
+
+Theorem C07_zero_threshold_returns_finest_grid_value : forall ex best : R, 0 < ex / best ->
+  (if far 0 ex best then best else ex) = best.
+Proof. exact zero_threshold_returns_finest. Qed.
+
+Theorem C07_fallback_monotone_in_threshold : forall fm fm' ex best : R,
+  fm' <= fm -> far fm ex best = true -> far fm' ex best = true.
+Proof. exact far_monotone. Qed.
+
+Theorem C07_zero_ratio_is_far : forall fm ex best : R, ex / best = 0 -> far fm ex best = true.
+Proof. exact far_zero_ratio. Qed.
+
+Theorem C07_negative_ratio_is_not_far : forall fm ex best : R, ex / best < 0 -> far fm ex best = false.
+Proof. exact far_negative_ratio. Qed.
